@@ -384,6 +384,51 @@ def resolutions(m, data, opts):
     return out
 
 
+def index_paths(m, data, opts, engine):
+    """for one --verify call under one engine variant: (child-index path of the ds:Signature that is verified, [child-index
+    path of every Reference's target]) in the parsed input - the same resolution as `resolutions`; None when anything
+    does not resolve (the call then failed)"""
+    try:
+        root = m._parse(data)
+        ids = register_ids(m, root, opts["id_attrs"], engine[0])
+        nid = opts.get("node_id")
+        start = root if nid is None else ids.get(nid)
+        if start is None:
+            return None
+        sig = find_signature(m, start, engine[1])
+        if sig is None:
+            return None
+        pmap = {c: p_ for p_ in root.iter() for c in p_}
+
+        def ipath(el):
+            out = []
+            while el is not root:
+                par = pmap[el]
+                out.append([c for c in par if isinstance(c.tag, str)].index(el))
+                el = par
+            return list(reversed(out))
+
+        targets = []
+        si = sig.find("{%s}SignedInfo" % m.DS)
+        for ref in si.findall("{%s}Reference" % m.DS):
+            uri = ref.get("URI")
+            if uri is None or uri == "":
+                t = root
+            elif uri.startswith("#"):
+                frag = uri[1:]
+                if frag.startswith("xpointer(id('") and frag.endswith("'))"):
+                    frag = frag[len("xpointer(id('"):-3]
+                t = ids.get(frag)
+            else:
+                t = None
+            if t is None:
+                return None
+            targets.append(ipath(t))
+        return ipath(sig), targets
+    except Exception:  # noqa
+        return None
+
+
 class C02Popen:
     """the stand-in's FakePopen under the current engine variant + capture of what C02 needs to observe: the digest of
     every --verify input (to tell the received text from the decrypted text), the output of every successful
@@ -435,6 +480,12 @@ class C02Popen:
             self.returncode, self._out, self._err = m.main(argv)
         if cmd == "verify" and len(m.LOG) > n_before and sha is not None:
             m.LOG[-1]["input_sha1"] = sha
+            # EXACT child-index paths of the signature node and of the Reference targets this call used (the stand-in's
+            # log writes '/Response/Assertion[0]/...': local names, index among the siblings of the same QUALIFIED name -
+            # ambiguous when an un-namespaced <Assertion> stands next to a saml:Assertion)
+            ip = index_paths(m, data, opts, engine)
+            if ip is not None:
+                m.LOG[-1]["sig_ipath"], m.LOG[-1]["target_ipaths"] = ip
         if cmd == "decrypt" and self.returncode == 0:
             try:
                 out = opts.get("output")
@@ -2339,9 +2390,16 @@ def run_engine(policy, xml, doc, engine, probe):
         if tree is None:
             out.append([which, [999], [999], key])
             continue
-        sp_ = path_from_log(tree, ent["signature_path"], None)
-        for dg in ent["digested"]:
-            tp = path_from_log(tree, dg["path"], dg.get("id"))
+        exact = "sig_ipath" in ent and len(ent.get("target_ipaths", [])) == len(ent["digested"])
+        if exact:       # sanity: the exact resolution names elements with the IDs the stand-in logged
+            try:
+                exact = all(attr(sub(tree, tp), "ID") == dg.get("id") for tp, dg in zip(ent["target_ipaths"], ent["digested"])) \
+                    and sub(tree, ent["sig_ipath"])[0] == DS_SIG
+            except Exception:  # noqa
+                exact = False
+        sp_ = ent["sig_ipath"] if exact else path_from_log(tree, ent["signature_path"], None)
+        for j, dg in enumerate(ent["digested"]):
+            tp = ent["target_ipaths"][j] if exact else path_from_log(tree, dg["path"], dg.get("id"))
             out.append([which, tp if tp is not None else [999], sp_ if sp_ is not None else [999], key])
     uniq = []
     for e in sorted(out):
